@@ -62,6 +62,7 @@ fn worker_exe() -> std::path::PathBuf {
 impl Worker {
     fn spawn() -> Worker {
         let exe = worker_exe();
+        let _ = std::fs::create_dir_all(vcore::util::work_root());
         let mut child = Command::new("/bin/sh")
             .arg("-c")
             .arg(format!("ulimit -v {CHILD_VMEM_KIB}; ulimit -c 0; exec \"$0\" c11-worker"))
